@@ -13,13 +13,17 @@ WRITERS = ("invert_freq", "apply_channel_mask", "downsample", "extract_samps", "
 N, NCH = 24, 8
 
 
+LONG_HEADER = {"on": False}   # observation with a long source name / raw-file path: output headers exceed 512 bytes
+
+
 def make_input(d, nbits=8, seed=0):
     rng = np.random.default_rng([seed, nbits, 20])
     X = sigfile.random_samples(rng, N, NCH, nbits, small=True)
     if nbits == 8:
         X = (X % 50 + 100).astype(np.uint8)
     p = os.path.join(d, "in.fil")
-    sigfile.write_fil(p, X, nbits, fch1=1500.0, foff=-10.0, tsamp=1e-3)
+    extra = {"source_name": "J0437-4715_" + "drift-scan-field-" * 9, "rawdatafile": "/data/archive/2017/09/04/" + "beam01_" * 20 + "raw.sf"} if LONG_HEADER["on"] else {}
+    sigfile.write_fil(p, X, nbits, fch1=1500.0, foff=-10.0, tsamp=1e-3, **extra)
     return p, X
 
 
@@ -97,6 +101,9 @@ def child_main(argv):
 
     faulthandler.enable()
     writer, d, gulp, k = argv[0], argv[1], int(argv[2]), int(argv[3])
+    flags = argv[4:]
+    LONG_HEADER["on"] = "long" in flags
+    interrupt = "interrupt" in flags     # instead of dying, the k-th write is followed by an exception that unwinds the writer (Ctrl-C, a failing read)
     from sigpyproc.io.fileio import FileWriter
 
     state = {"n": 0}
@@ -108,7 +115,11 @@ def child_main(argv):
             r = orig(self, arg)
             if not self.files[0].endswith("in.fil"):
                 state["n"] += 1
+                with open(os.path.join(d, ".writes"), "a") as lf:     # which products have received bytes so far (read by the parent after the crash)
+                    lf.write(os.path.basename(self.files[0]) + "\n")
                 if k >= 0 and state["n"] == k + 1:
+                    if interrupt:
+                        raise KeyboardInterrupt("injected after write %d" % (k + 1))
                     os._exit(137)  # die right after the (k+1)-th write returned: no flush, no atexit, no close
             return r
 
@@ -117,7 +128,15 @@ def child_main(argv):
     if k >= 0:
         wrap("write")
         wrap("cwrite")
-    outs = run_writer(writer, d, gulp, preexisting=len(argv) > 4 and argv[4] == "pre")
+    try:
+        outs = run_writer(writer, d, gulp, preexisting="pre" in flags)
+    except KeyboardInterrupt:
+        if not interrupt:
+            raise
+        # the interpreter unwinds normally (context managers exit, files are closed): what is on disk afterwards is what a user is left with
+        sys.stdout.write("INTERRUPTED\n")
+        sys.stdout.flush()
+        sys.exit(130)
     sys.stdout.write("DONE " + " ".join(outs) + "\n")
     sys.stdout.flush()
     os._exit(0)
